@@ -103,19 +103,23 @@ class XmlContext:
 
     def build_xsi_cache(self) -> None:
         """Index all imported data classes by their xsi:type qualified name."""
-        if len(sys.modules) == self.sys_modules:
+        sys_modules = len(sys.modules)
+        if sys_modules == self.sys_modules:
             return
 
-        self.xsi_cache.clear()
+        # Fill a new index and publish it at once, other threads
+        # must never look up types in a half-built index.
+        xsi_cache: dict[str, list[type]] = defaultdict(list)
         builder = self.get_builder()
         for clazz in self.get_subclasses(object):
             if self.is_binding_model(clazz):
                 meta = builder.build_class_meta(clazz)
 
                 if meta.target_qname:
-                    self.xsi_cache[meta.target_qname].append(clazz)
+                    xsi_cache[meta.target_qname].append(clazz)
 
-        self.sys_modules = len(sys.modules)
+        self.xsi_cache = xsi_cache
+        self.sys_modules = sys_modules
 
     def is_binding_model(self, clazz: type[T]) -> bool:
         """Return whether the clazz is a binding model.
@@ -159,8 +163,9 @@ class XmlContext:
         """
         if not DataType.from_qname(qname):
             self.build_xsi_cache()
-            if qname in self.xsi_cache:
-                return self.xsi_cache[qname]
+            xsi_cache = self.xsi_cache
+            if qname in xsi_cache:
+                return xsi_cache[qname]
 
         return []
 
